@@ -1010,6 +1010,16 @@ struct Driver {
         Op op; op.name = "add_cell"; op.a = {(long)rng.below(2), 4, hfs[0], hfs[1], hfs[2], hfs[3]};
         exec(op);
     }
+    // loop edges, one-halfedge faces and 2-gons (C08: "faces of every valence >= 1 incl. loops and 2-gons")
+    void gen_degenerate() {
+        std::vector<int> lv = live(0);
+        if (lv.empty()) { fresh_vertex(); lv = live(0); }
+        int what = (int)rng.below(4);
+        if (what == 0) { int v = rng.pick(lv); exec(mk("add_edge", {v, v, (long)rng.below(2)})); return; }
+        std::vector<int> vs = lv; rng.shuffle(vs); vs.resize(std::min<size_t>(vs.size(), what == 1 ? 1 : 2));
+        Op op; op.name = "add_face_v"; op.a.push_back((long)vs.size()); for (int v : vs) op.a.push_back(v);
+        exec(op);
+    }
     void gen_mode() {
         int what = (int)rng.below(10);
         if (what < 2) exec(mk("enable_deferred", {(long)rng.below(2)}));
@@ -1036,6 +1046,7 @@ struct Driver {
             if (w < 30 || nent < 10) grow(); else if (w < 75) gen_swap(); else if (w < 85) gen_delete(); else if (w < 93) gen_mode(); else gen_prop();
         } else if (profile == "c09" || profile == "c10" || profile == "c05") {
             if (profile == "c10" && kind == "poly" && w < 4 && nent < 60) twin_tet(); else
+            if (profile == "c10" && kind == "poly" && w < 10 && nent < 70) gen_degenerate(); else
             if (w < 50 || nent < 10) grow(); else if (w < 72) gen_delete(); else if (w < 82) gen_swap(); else if (w < 95) gen_mode(); else gen_prop();
         } else if (profile == "c04") {
             if (w < 40 || nent < 10) grow(); else if (w < 75) gen_delete(); else if (w < 92) gen_mode(); else gen_prop();
